@@ -110,6 +110,55 @@ def maybe_unassigned_reads(stmts, defs, out):
     return defs
 
 
+def counter_in_advance(w, cur):
+    """The cursor advance (cursor = cursor[E:]) must not depend on a counter that is carried from one
+    iteration to the next: the stride would grow with the position of the element in the list."""
+    body = ast.Module(body=w.body, type_ignores=[])
+    counters = {n.target.id for n in ast.walk(body) if isinstance(n, ast.AugAssign) and isinstance(n.target, ast.Name)
+                and isinstance(n.value, ast.Constant) and isinstance(n.value.value, int)}
+    # only counters that are not re-initialised inside the loop body
+    for n in ast.walk(body):
+        if isinstance(n, ast.Assign):
+            for t in n.targets:
+                for x in ast.walk(t):
+                    if isinstance(x, ast.Name) and isinstance(x.ctx, ast.Store):
+                        counters.discard(x.id)
+        if isinstance(n, (ast.For, ast.comprehension)):
+            for x in ast.walk(n.target):
+                if isinstance(x, ast.Name):
+                    counters.discard(x.id)
+    for st in ast.walk(body):
+        if isinstance(st, ast.Assign) and isinstance(st.value, ast.Subscript) and \
+                isinstance(st.value.slice, ast.Slice) and src_of(st.targets[0]) in cur and \
+                src_of(st.value.value) == src_of(st.targets[0]) and st.value.slice.lower is not None:
+            used = {x.id for x in ast.walk(st.value.slice.lower) if isinstance(x, ast.Name)} & counters
+            if used:
+                return ('the cursor advance %s depends on the counter %s, which grows from one iteration to the next: '
+                        'the stride is not the size of the element just read, later elements are skipped'
+                        % (src_of(st), sorted(used)[0]))
+    return None
+
+
+def append_before_fill(w):
+    """An element must be complete when it is appended to the result list: filling it afterwards lets an
+    early `continue` leave a partial element behind."""
+    body = ast.Module(body=w.body, type_ignores=[])
+    for i, st in enumerate(w.body):
+        if isinstance(st, ast.Expr) and isinstance(st.value, ast.Call) and isinstance(st.value.func, ast.Attribute) \
+                and st.value.func.attr == 'append' and len(st.value.args) == 1 and isinstance(st.value.args[0], ast.Name):
+            elem = st.value.args[0].id
+            later = ast.Module(body=w.body[i + 1:], type_ignores=[])
+            filled = any(isinstance(x, ast.Assign) and any(
+                isinstance(t, ast.Subscript) and isinstance(t.value, ast.Name) and t.value.id == elem for t in x.targets)
+                for x in ast.walk(later))
+            leaves = any(isinstance(x, ast.Continue) for x in ast.walk(later))
+            if filled and leaves:
+                return ('%s is appended to %s at line %d and filled in afterwards, with a `continue` in between: an '
+                        'element the decoder does not handle leaves a partial entry in the result, and what the '
+                        'neighbours decode to (nlri[0]) changes' % (elem, src_of(st.value.func.value), st.lineno))
+    return None
+
+
 def loop_threshold_problem(w, cur):
     """`while len(cursor) > K` / `>= K` must not stop while a whole element (the octets every iteration consumes
     at least) is still in the buffer."""
@@ -420,10 +469,11 @@ def check(prog, rep, tier):
                           'depends on the elements before it' % acc_reads[0],
                     expected='the result list is only appended to', key=lk)
             continue
-        thr = loop_threshold_problem(w, cur)
+        thr = loop_threshold_problem(w, cur) or counter_in_advance(w, cur) or append_before_fill(w)
         if thr:
             rep.bad('R15.c', lk, file=f.file, line=w.lineno, func=f.qualname, found=thr,
-                    expected='continue while a whole element remains', key=lk)
+                    expected='continue while a whole element remains; stride and elements independent of the position '
+                             'in the list', key=lk)
             continue
         # path-sensitive version: a name stored somewhere in the loop body that can be read on a path of one
         # iteration before it is assigned in that iteration carries a value over from the previous element
@@ -485,6 +535,16 @@ def check(prog, rep, tier):
                 if name == 'bgpls_pro_id':
                     continue
                 probs.append((ni, 'the branch for type %s reads %s, which the branch for type %s writes' % (ci, name, cj)))
+    # the protocol id remembered for the link-state attribute is only overwritten by an MP_REACH that carries one
+    for n in ast.walk(pa.node):
+        if isinstance(n, ast.Assign) and any(isinstance(t, ast.Name) and t.id == 'bgpls_pro_id' for t in n.targets):
+            if isinstance(n.value, ast.Constant) and n.value.value is None:
+                continue        # initialisation
+            cs = common.conds_at(pa.node, n)
+            if not any(v and 'protocol_id' in src_of(t) for t, v in cs):
+                probs.append((n, 'bgpls_pro_id is assigned %s without a test that the NLRI carries a protocol id: a '
+                                 'later MP_REACH_NLRI of another family resets it, and the link-state attribute is then '
+                                 'decoded differently depending on the attribute order' % src_of(n.value)))
     # the deferral of the BGP-LS attribute
     txt = src_of(pa.node)
     deferral = 'bgpls_attr = attr_value' in txt and 'if bgpls_attr' in txt and \
